@@ -1138,3 +1138,130 @@ pub fn combx_pair(rng: &mut Rng) -> (Vec<(Vec<P>, Vec<Vec<P>>)>, Vec<(Vec<P>, Ve
     let sh = |r: Vec<P>| -> Vec<P> { r.into_iter().map(|p| (p.0 + o.0, p.1 + o.1)).collect() };
     (vec![(sh(a), vec![])], vec![(sh(b), vec![])])
 }
+
+/// family "onion": nested rectangles r_0 > r_1 > ... > r_k; an operand is a set of the annuli
+/// between consecutive rectangles (neighbouring selected annuli merge), i.e. polygons with a hole,
+/// islands inside holes, islands inside holes of islands ... - nesting depth up to k/2 in operands
+/// and results. Operands of one context share the rectangles (all boundaries coincide or are
+/// nested); with probability 1/2 the second onion is shifted so that the two cross properly.
+pub fn onion_set(rng: &mut Rng, n: usize) -> Vec<Vec<(Vec<P>, Vec<Vec<P>>)>> {
+    let k = rng.range(3, 7) as usize; // rectangles r_0 .. r_k
+    let o = (rng.range(-20, 20), rng.range(-20, 20));
+    let mut rects: Vec<(i64, i64, i64, i64)> = vec![];
+    let (mut x0, mut y0, mut x1, mut y1) = (0i64, 0i64, 0i64, 0i64);
+    // build from the inside out so that every gap is at least 1
+    let (w, h) = (rng.range(1, 3), rng.range(1, 3));
+    x1 += w;
+    y1 += h;
+    rects.push((x0, y0, x1, y1));
+    for _ in 0..k {
+        x0 -= rng.range(1, 3);
+        y0 -= rng.range(1, 3);
+        x1 += rng.range(1, 3);
+        y1 += rng.range(1, 3);
+        rects.push((x0, y0, x1, y1));
+    }
+    rects.reverse(); // r_0 outermost
+    let mut out = vec![];
+    for i in 0..n {
+        let shift = if i > 0 && rng.chance(1, 2) { (rng.range(-4, 4), rng.range(-4, 4)) } else { (0, 0) };
+        // inside[j]: the region between r_j and r_(j+1) (the innermost rectangle itself for j = k) belongs to the operand
+        let mut inside: Vec<bool> = (0..=k).map(|_| rng.chance(1, 2)).collect();
+        if !inside.iter().any(|b| *b) {
+            inside[0] = true;
+        }
+        let mut bounds: Vec<usize> = vec![];
+        let mut prev = false;
+        for j in 0..=k {
+            if inside[j] != prev {
+                bounds.push(j);
+            }
+            prev = inside[j];
+        }
+        let ring = |j: usize, ccw: bool| {
+            let r = rects[j];
+            rect_ring(r.0 + o.0 + shift.0, r.1 + o.1 + shift.1, r.2 + o.0 + shift.0, r.3 + o.1 + shift.1, ccw)
+        };
+        let mut polys = vec![];
+        let mut b = 0;
+        while b < bounds.len() {
+            let holes = if b + 1 < bounds.len() { vec![ring(bounds[b + 1], false)] } else { vec![] };
+            polys.push((ring(bounds[b], true), holes));
+            b += 2;
+        }
+        out.push(polys);
+    }
+    out
+}
+
+/// family "lamina": a laminar family of rectangles (any two nested or disjoint, gaps >= 1) read by
+/// the even-odd rule: rectangles at odd nesting depth are exterior rings, their children are their
+/// holes, grandchildren are islands ... Siblings are laid out on a small grid inside their parent,
+/// so holes sit above holes, islands are stacked above and beside each other inside one hole, and
+/// several top-level polygons start between them. Operands of one context are independent such
+/// families over the same area (they cross in lattice points), or a rectangle covering everything.
+pub fn lamina_set(rng: &mut Rng, n: usize) -> Vec<Vec<(Vec<P>, Vec<Vec<P>>)>> {
+    type R4 = (i64, i64, i64, i64);
+    struct Node {
+        r: R4,
+        kids: Vec<Node>,
+    }
+    fn fill(r: R4, depth: u32, rng: &mut Rng) -> Vec<Node> {
+        let (w, h) = (r.2 - r.0 - 2, r.3 - r.1 - 2); // interior minus a margin of 1
+        if depth > 4 || w < 2 || h < 2 {
+            return vec![];
+        }
+        let nx = if w >= 7 { rng.range(1, 3) } else if w >= 5 { rng.range(1, 2) } else { 1 };
+        let ny = if h >= 7 { rng.range(1, 3) } else if h >= 5 { rng.range(1, 2) } else { 1 };
+        let (cw, ch) = ((w + 1) / nx, (h + 1) / ny); // cell pitch including a gap of 1
+        let mut out = vec![];
+        for i in 0..nx {
+            for j in 0..ny {
+                if !rng.chance(if depth <= 1 { 4 } else { 3 }, 5) || cw < 2 || ch < 2 {
+                    continue;
+                }
+                let (x0, y0) = (r.0 + 1 + i * cw, r.1 + 1 + j * ch);
+                let (x1, y1) = (x0 + cw - 1, y0 + ch - 1);
+                // sometimes shrink the child inside its cell
+                let sx = if x1 - x0 >= 4 && rng.chance(1, 3) { 1 } else { 0 };
+                let sy = if y1 - y0 >= 4 && rng.chance(1, 3) { 1 } else { 0 };
+                let c = (x0 + sx, y0 + sy, x1 - sx, y1 - sy);
+                if c.2 - c.0 >= 1 && c.3 - c.1 >= 1 {
+                    let kids = fill(c, depth + 1, rng);
+                    out.push(Node { r: c, kids });
+                }
+            }
+        }
+        out
+    }
+    fn emit(nodes: &[Node], exterior: bool, out: &mut Vec<(Vec<P>, Vec<Vec<P>>)>) {
+        for nd in nodes {
+            if exterior {
+                let holes = nd.kids.iter().map(|k| rect_ring(k.r.0, k.r.1, k.r.2, k.r.3, false)).collect();
+                out.push((rect_ring(nd.r.0, nd.r.1, nd.r.2, nd.r.3, true), holes));
+            }
+            emit(&nd.kids, !exterior, out);
+        }
+    }
+    let o = (rng.range(-20, 20), rng.range(-20, 20));
+    let (w, h) = (rng.range(9, 22), rng.range(9, 22));
+    let area = (o.0, o.1, o.0 + w, o.1 + h);
+    let mut res = vec![];
+    for _ in 0..n {
+        loop {
+            if rng.chance(1, 8) {
+                res.push(vec![(rect_ring(area.0 - 1, area.1 - 1, area.2 + 1, area.3 + 1, true), vec![])]);
+                break;
+            }
+            // the whole area plays the role of an (absent) depth-0 rectangle: its children are top-level polygons
+            let tops = fill((area.0 - 1, area.1 - 1, area.2 + 1, area.3 + 1), 1, rng);
+            let mut polys = vec![];
+            emit(&tops, true, &mut polys);
+            if !polys.is_empty() {
+                res.push(polys);
+                break;
+            }
+        }
+    }
+    res
+}
